@@ -556,6 +556,10 @@ func GenFilter(t *rapid.T, list string, o Opts, haveArch *string) (Filter, strin
 			name = pick(t, "pathfield", []string{"path", "dir", "exe"})
 			s = append([]byte("/"), s...)
 		}
+		if o.Strict && !o.FlagsRoute && (op == "<" || op == ">" || op == "&") && rapid.IntRange(0, 7).Draw(t, "ambiguous") == 0 {
+			// struct route only: after '<', '>' or '&' a value that starts with '=' prints as the text of another operator
+			s = append([]byte("="), s...)
+		}
 		f = flt(name, op, s, uint32(len(s)), "string")
 		f.IsStr = true
 	case "exit":
@@ -756,7 +760,10 @@ func genKeys(t *rapid.T, o Opts) [][]byte {
 	var keys [][]byte
 	for i, n := 0, rapid.IntRange(0, 3).Draw(t, "nkeys"); i < n; i++ {
 		var k string
-		if o.Strict || o.FlagsRoute {
+		if o.Strict && !o.FlagsRoute {
+			// struct route: a key may contain commas (only the -k flag of the text form splits at commas)
+			k = rapid.StringMatching(`[A-Za-z0-9_.:=/@%+,-]{1,12}`).Draw(t, "key")
+		} else if o.Strict || o.FlagsRoute {
 			k = rapid.StringMatching(`[A-Za-z0-9_.:=/@%+-]{1,12}`).Draw(t, "key")
 		} else {
 			k = string(genString(t, "key", o, 12))
